@@ -553,6 +553,8 @@ def generic_correspond(ctx, harness_src, exe, prop, plan_fn, build_line, label, 
                 if key in spec and not (key == "nm" and spec["op"] != "embed"):
                     ctx.stat("%s:%s" % (key, spec[key]))
             ctx.stat("d=%d" % spec["d"])
+            if isinstance(spec.get("D"), int) and spec["op"] == "embed":
+                ctx.stat("D:" + ("2-4" if spec["D"] <= 4 else "5-12" if spec["D"] <= 12 else "13-29" if spec["D"] <= 29 else "30"))
             ctx.stat("k:" + ("min" if spec["k"] <= 3 else "N-1" if spec["k"] >= N - 1 else "mid"))
             tally(ctx, v)
             if cls in ("ok", "fail", "broken"):
